@@ -387,7 +387,10 @@ func main() {
 		cs = append(cs, caseT{Name: "opcode:" + nm, bm: bm})
 	}
 	// shared objects
-	for _, so := range []string{"stack:4", "queue:8", "channel:", "barrier:10", "lfsr8:1", "sharedmem:4", "uart:9600:4", "kbd:k0", "vtextmem:0:3:3:16:16:1:20:3:16:16"} {
+	for _, so := range []string{"stack:4", "queue:8", "channel:", "barrier:10", "lfsr8:1", "sharedmem:4", "uart:9600:4", "kbd:k0", "vtextmem:0:3:3:16:16:1:20:3:16:16",
+		// unusual but legal parameters: two-digit and power-of-two depths, other rates/seeds/names, several boxes
+		"stack:10", "stack:16", "stack:1", "queue:12", "queue:32", "queue:1", "barrier:3", "barrier:128", "lfsr8:17", "lfsr8:255", "sharedmem:10", "sharedmem:16",
+		"uart:115200:8", "uart:300:16", "kbd:k12", "vtextmem:0:3:3:16:16:1:20:3:16:16:2:40:3:16:16"} {
 		for procs := 1; procs <= 2; procs++ {
 			var ms []*procbuilder.Machine
 			for p := 0; p < procs; p++ {
